@@ -41,7 +41,30 @@ C17 = {
     "assumptions": ASSUME_COMMON + ["the query-parameter description is specified as the constant 'a string' (documented in the source)"],
 }
 
+C18 = {
+    "sub": "dym",
+    "mc": {
+        "quick": [{"module": "MC_dym", "cfg": "MC_dym_ind_quick.cfg", "workers": 8},
+                  {"module": "MC_dym", "cfg": "MC_dym_pairs.cfg", "workers": 8},
+                  {"module": "MC_dym", "cfg": "MC_dym_pairs_wide.cfg", "workers": 8}],
+        "thorough": [{"module": "MC_dym", "cfg": "MC_dym_ind_thorough.cfg", "workers": 16, "timeout": 3000},
+                     {"module": "MC_dym", "cfg": "MC_dym_pairs_thorough.cfg", "workers": 12, "timeout": 3000},
+                     {"module": "MC_dym", "cfg": "MC_dym_pairs_wide.cfg", "workers": 8}],
+    },
+    "replay_args": ["replay"],
+    "random_args": {"quick": [["random", "2000"]], "thorough": [["random", "60000"]]},
+    "trace": ("Trace_dym", "Trace_dym.cfg"),
+    "shards": {"quick": 8, "thorough": 14},
+    "nontrivial": lambda ev: (repr((ev["inp"]["r"]["s"], [a["s"] for a in ev["inp"]["acc"]])) if ev["out"] != "" else None),
+    "rule": "one run per (received, accepted list): TLC proves on every pair of strings over a 3-symbol alphabet (one 2-byte symbol) up to length 4 (quick) / 5 (thorough) "
+            "that the Lowrance-Wagner DP is the shortest-path distance of the four-operation edit graph (Zero, Lipschitz, Descent) and checks the structural facts; "
+            "every such pair (single candidate, and candidate + its reverse) plus a wide alphabet with a 4-byte symbol is replayed through the real did_you_mean; "
+            "seeded random multi-candidate lists with ties, repeats and multi-byte strings around every byte threshold; non-trivial = distinct inputs for which a suggestion is returned",
+    "assumptions": ASSUME_COMMON + ["the scalar-value sequence logged next to each string is s.chars() (mechanical encoding by the harness)"],
+}
+
 CHECKS = {
+    "C18": (lambda pid, tier: helpers.run(pid, tier, C18), lambda pid, path: helpers.replay(pid, C18, path)),
     "C17": (lambda pid, tier: helpers.run(pid, tier, C17), lambda pid, path: helpers.replay(pid, C17, path)),
     "C19": (lambda pid, tier: helpers.run(pid, tier, C19), lambda pid, path: helpers.replay(pid, C19, path)),
 }
